@@ -9,6 +9,7 @@ fn sweep<const F: u128>(name: &str, maxlen: usize) {
             let s: Vec<u8> = idx.iter().map(|&i| alpha[i]).collect();
             n += 1;
             if let Err(e) = hs::cmp_sep::<F>(&s) { bad += 1; if bad < 6 { println!("  {name} {:?}: {}", String::from_utf8_lossy(&s), e); } }
+            if let Err(e) = hs::cmp_sep_partial_complete_int::<F>(&s) { bad += 1; if bad < 12 { println!("  {name} {:?}: {}", String::from_utf8_lossy(&s), e); } }
             if let Err(e) = hs::cmp_sep_grammar_int::<F>(&s) { bad += 1; if bad < 12 { println!("  {name} {:?}: {}", String::from_utf8_lossy(&s), e); } }
             if let Err(e) = hs::cmp_sep_grammar::<F>(&s) { bad += 1; if bad < 12 { println!("  {name} {:?}: {}", String::from_utf8_lossy(&s), e); } }
             if let Err(e) = hs::cmp_sep_partial_complete::<F>(&s) { bad += 1; if bad < 12 { println!("  {name} {:?}: {}", String::from_utf8_lossy(&s), e); } }
